@@ -990,7 +990,7 @@ def thread_known_discriminants(doc):
                         carried.extend(st_)
                         ti = blk['term']['target']
                         continue
-                    if blk['term'].get('k') == 'switch' and st_ and len(st_) <= 6:
+                    if blk['term'].get('k') == 'switch' and st_ and len(st_) <= 16:
                         ds = st_[-1]
                         pre = st_[:-1]
                         if ds.get('k') == 'assign' and ds['rv'].get('k') == 'discriminant' and not ds['rv']['place']['p'] and ds['rv']['place']['l'] == cur and \
@@ -1385,6 +1385,35 @@ def expand_closure_calls(doc):
                 continue
             fop, tup = t['args']
             app = _applied(b, by_key, fop)
+            if app is None:
+                # a trait method item handed in as a value (`Self::derive_keypair`): follow plain moves to the constant
+                cur, hops = fop, 0
+                while cur.get('k') in ('move', 'copy') and not cur['place']['p'] and hops < 6:
+                    d_ = _single_def(b, cur['place']['l'])
+                    if d_ is None or d_[0] != 'stmt' or d_[2]['rv'].get('k') != 'use':
+                        break
+                    cur = d_[2]['rv']['op']
+                    hops += 1
+                if cur.get('k') == 'const' and cur.get('fn') and cur['fn'].get('def_kind') in ('Fn', 'AssocFn') and tup.get('k') == 'move' and not tup['place']['p']:
+                    tty = t['arg_tys'][1]
+                    if tty.startswith('(') and tty.endswith(')'):
+                        parts = [x for x in _split_top(tty[1:-1]) if x.strip()]
+                        args = [{'k': 'move', 'place': {'l': tup['place']['l'], 'p': [{'f': str(i), 'i': i, 'ty': ty, 'adt': None}]}} for i, ty in enumerate(parts)]
+                        blk['term'] = dict(t, func=cur, args=args, arg_tys=parts, syn='call')
+                        n += 1
+                    continue
+            if app is not None and app[0] == 'fn' and tup.get('k') == 'move' and not tup['place']['p']:
+                # `f(args)` where f is a function item handed in as a value (`helper(rng, Self::derive_keypair)`): a direct call
+                tty = t['arg_tys'][1]
+                if tty.startswith('(') and tty.endswith(')'):
+                    parts = [x for x in _split_top(tty[1:-1]) if x.strip()]
+                    ffn = app[1]['fn']
+                    callee = by_key.get((ffn.get('resolved') or {}).get('key') or ffn.get('key'))
+                    if callee is not None and callee['arg_count'] == len(parts):
+                        args = [{'k': 'move', 'place': {'l': tup['place']['l'], 'p': [{'f': str(i), 'i': i, 'ty': ty, 'adt': None}]}} for i, ty in enumerate(parts)]
+                        blk['term'] = dict(t, func=app[1], args=args, arg_tys=parts, syn='call')
+                        n += 1
+                continue
             if app is None or app[0] != 'closure':
                 continue
             ck = app[1]
@@ -2024,4 +2053,86 @@ def hoist_return_conversion(doc):
                                          'line': ct.get('line'), 'fn_line': ct.get('line'), 'exp': False, 'syn': 'hoist'}})
         done.append(f['key'])
     doc.setdefault('meta', {})['hoisted_return_conversions'] = done
+    return doc
+
+
+
+# N3k small Option/Result combinators that take a *value*, and the variant tests:
+#     x.map_or(d, f) = x.map(f).unwrap_or(d);  x.unwrap_or(d) = match x { Some(v)/Ok(v) => v, _ => d };
+#     x.is_some() / is_none() / is_ok() / is_err() = discriminant(x) == k
+def expand_value_combinators(doc):
+    n = 0
+    for b in doc['bodies']:
+        blocks = b['blocks']
+        L = b['locals']
+
+        def new_local(ty):
+            L.append({'ty': ty, 'ty_raw': ty, 'name': None, 'mut': True, 'synthetic': True})
+            return len(L) - 1
+        i = 0
+        while i < len(blocks):
+            blk = blocks[i]
+            i += 1
+            t = blk['term']
+            if t.get('k') != 'call' or blk.get('cleanup') or t.get('target') is None or t['dest']['p']:
+                continue
+            fn = (t.get('func') or {}).get('fn') or {}
+            path = fn.get('path')
+            line = t.get('line')
+
+            def asg(place, rv, syn):
+                return {'k': 'assign', 'place': place, 'rv': rv, 'line': line, 'exp': False, 'syn': syn}
+            if path in ('core::option::Option::<T>::map_or', 'core::result::Result::<T, E>::map_or') and len(t['args']) == 3:
+                x, d, f = t['args']
+                is_opt = path.startswith('core::option')
+                xa = _ty_args(t['arg_tys'][0])
+                u = t['dest_ty']
+                mid_ty = ('core::option::Option<%s>' % u) if is_opt else ('core::result::Result<%s, %s>' % (u, xa[1] if len(xa) == 2 else '?'))
+                mid = new_local(mid_ty)
+                mfn = dict(fn)
+                mname = 'core::option::Option::<T>::map' if is_opt else 'core::result::Result::<T, E>::map'
+                mfn.update({'path': mname, 'key': mname, 'name': 'map', 'path_args': mname})
+                ufn = dict(fn)
+                uname = 'core::option::Option::<T>::unwrap_or' if is_opt else 'core::result::Result::<T, E>::unwrap_or'
+                ufn.update({'path': uname, 'key': uname, 'name': 'unwrap_or', 'path_args': uname, 'generic_args': [u] + ([xa[1]] if not is_opt and len(xa) == 2 else [])})
+                nb = len(blocks)
+                blocks.append({'cleanup': False, 'syn': 'map_or', 'stmts': [],
+                               'term': dict(t, func={'k': 'const', 'ty': 'fn', 'text': uname, 'fn': ufn}, args=[{'k': 'move', 'place': {'l': mid, 'p': []}}, d],
+                                            arg_tys=[mid_ty, t['arg_tys'][1]], syn='map_or')})
+                blk['term'] = dict(t, func={'k': 'const', 'ty': 'fn', 'text': mname, 'fn': mfn}, args=[x, f], arg_tys=[t['arg_tys'][0], t['arg_tys'][2]],
+                                   dest={'l': mid, 'p': []}, dest_ty=mid_ty, target=nb, syn='map_or')
+                n += 1
+                continue
+            if path in ('core::option::Option::<T>::unwrap_or', 'core::result::Result::<T, E>::unwrap_or') and len(t['args']) == 2:
+                x, d = t['args']
+                if x.get('k') != 'move' or x['place']['p']:
+                    continue
+                is_opt = path.startswith('core::option')
+                xl = x['place']['l']
+                okv, okidx, adt = ('Some', 1, 'core::option::Option') if is_opt else ('Ok', 0, 'core::result::Result')
+                dl = new_local('isize')
+                base = len(blocks)
+                blk['stmts'].append(asg({'l': dl, 'p': []}, {'k': 'discriminant', 'place': {'l': xl, 'p': []}}, 'unwrap_or'))
+                blk['term'] = {'k': 'switch', 'discr': {'k': 'move', 'place': {'l': dl, 'p': []}}, 'discr_ty': 'isize', 'targets': [[okidx, base]], 'otherwise': base + 1,
+                               'line': line, 'exp': False, 'syn': 'unwrap_or'}
+                payload = {'l': xl, 'p': [{'downcast': okv, 'v': okidx}, {'f': '0', 'i': 0, 'ty': t['dest_ty'], 'adt': adt}]}
+                blocks.append({'cleanup': False, 'syn': 'unwrap_or', 'stmts': [asg(t['dest'], {'k': 'use', 'op': {'k': 'move', 'place': payload}}, 'unwrap_or')],
+                               'term': {'k': 'goto', 'target': t['target'], 'line': line}})
+                blocks.append({'cleanup': False, 'syn': 'unwrap_or', 'stmts': [asg(t['dest'], {'k': 'use', 'op': d}, 'unwrap_or')],
+                               'term': {'k': 'goto', 'target': t['target'], 'line': line}})
+                n += 1
+                continue
+            tests = {'core::option::Option::<T>::is_some': 1, 'core::option::Option::<T>::is_none': 0,
+                     'core::result::Result::<T, E>::is_ok': 0, 'core::result::Result::<T, E>::is_err': 1}
+            if path in tests and len(t['args']) == 1 and path.startswith('core::option'):
+                x = t['args'][0]
+                if x.get('k') not in ('move', 'copy') or x['place']['p']:
+                    continue
+                dl = new_local('isize')
+                blk['stmts'].append(asg({'l': dl, 'p': []}, {'k': 'discriminant', 'place': {'l': x['place']['l'], 'p': ['deref']}}, 'is_some'))
+                blk['stmts'].append(asg(t['dest'], {'k': 'binop', 'op': 'Eq', 'l': {'k': 'move', 'place': {'l': dl, 'p': []}},
+                                                    'r': {'k': 'const', 'ty': 'isize', 'text': '%d_isize' % tests[path], 'int': tests[path]}, 'lty': 'isize'}, 'is_some'))
+                blk['term'] = {'k': 'goto', 'target': t['target'], 'line': line, 'syn': 'is_some'}
+                n += 1
+    doc.setdefault('meta', {})['expanded_value_combinators'] = n
     return doc
